@@ -313,6 +313,21 @@ def roundtrip(st, segs):
                 st.fail("switch-then-parse|%s|from%s" % (sig, sep), case,
                         repr(segs), "%r (%d unescaped)" % (lazy_ast, lazy_n))
                 continue
+            # a switched path copied, compared or extended with + is still
+            # the path of those segments
+            try:
+                copy_ast = to_ast(YAMLPath(lazy).escaped)
+                same = (lazy == YAMLPath(text)) and (YAMLPath(text) == lazy)
+                plus_ast = to_ast((lazy + "zz").escaped)
+            except Exception as ex:       # pylint: disable=broad-except
+                copy_ast, same, plus_ast = "%s: %s" % (
+                    type(ex).__name__, ex), False, None
+            if copy_ast != segs or not same or \
+                    plus_ast != segs + (("key", "zz"),):
+                st.fail("switch-then-copy|%s|from%s" % (sig, sep), case,
+                        repr(segs), "copy %r, equal %s, + %r" % (
+                            copy_ast, same, plus_ast))
+                continue
             # ... and a segment appended to the switched path joins it as a
             # segment; popped again, the path is as before
             try:
